@@ -209,6 +209,10 @@ func hostileSession(rng *rand.Rand, n int, dotu bool) [][]byte {
 			m.Ext = names[rng.Intn(len(names))]
 		case 5, 6:
 			m.Type, m.Fid, m.Offset, m.Count = wire.Tread, pick(), u64[rng.Intn(len(u64))], u32[rng.Intn(len(u32))]
+			if rng.Intn(2) == 0 {
+				// directory reads at arbitrary offsets: inside records, on boundaries, around the end
+				m.Offset, m.Count = uint64(rng.Intn(3200)), uint32(rng.Intn(300))
+			}
 		case 7:
 			m.Type, m.Fid, m.Offset = wire.Twrite, pick(), u64[rng.Intn(len(u64))]
 			m.Data = make([]byte, []int{0, 1, 100, 8168, 8169}[rng.Intn(5)])
@@ -321,6 +325,10 @@ func TestHostile(t *testing.T) {
 							h.rpc(ch, &wire.Msg{Type: wire.Twalk, Fid: 1, Newfid: 2, Wname: []string{"d"}}, dotu)
 							h.rpc(ch, &wire.Msg{Type: wire.Topen, Fid: 2, Mode: 0}, dotu)
 							h.rpc(ch, &wire.Msg{Type: wire.Twalk, Fid: 1, Newfid: 3, Wname: []string{"f"}}, dotu)
+							if crng.Intn(2) == 0 {
+								// the server snapshots the listing at offset 0
+								h.rpc(ch, &wire.Msg{Type: wire.Tread, Fid: 2, Offset: 0, Count: []uint32{8168, 200, 0}[crng.Intn(3)]}, dotu)
+							}
 						}
 						sess := hostileSession(crng, 12+crng.Intn(20), dotu)
 						switch k {
